@@ -16,27 +16,61 @@ import traceback
 from harness import core
 
 
+class CaseTimeout(BaseException):
+    """raised by the watchdog inside the code under test; a BaseException so that the `except Exception` blocks of
+    the code under test cannot swallow it"""
+
+
+CASE_LIMIT_S = int(os.environ.get('VERIF_CASE_LIMIT_S', '600'))   # per case; the slowest legitimate case takes seconds
+
+
+def with_watchdog(fn, *args):
+    """A change that makes an operator loop forever on some input must end in a VIOLATION line, not in a check
+    that never returns: every run of the implementation (and every oracle, which may run it again) is bounded."""
+    import signal
+
+    def on_alarm(signum, frame):
+        raise CaseTimeout()
+    old = signal.signal(signal.SIGALRM, on_alarm)
+    signal.setitimer(signal.ITIMER_REAL, CASE_LIMIT_S)
+    try:
+        return fn(*args)
+    finally:
+        signal.setitimer(signal.ITIMER_REAL, 0)
+        signal.signal(signal.SIGALRM, old)
+
+
 def safe_run(mod, case):
     try:
-        return mod.run_impl(case)
+        return with_watchdog(mod.run_impl, case)
+    except CaseTimeout:
+        return {'raised': 'Timeout', 'timeout': True,
+                'msg': 'the implementation did not finish this case within %d s' % CASE_LIMIT_S, 'tb': []}
     except Exception as e:  # the implementation raised to the caller: an observation like any other
         return {'raised': type(e).__name__, 'msg': str(e)[:200],
                 'tb': traceback.format_exc().strip().split('\n')[-3:]}
 
 
 def safe_oracle(mod, case, obs):
+    if isinstance(obs, dict) and obs.get('timeout'):
+        return {'sig': 'does-not-terminate', 'what': obs['msg']}
     if isinstance(obs, dict) and 'raised' in obs and getattr(mod, 'RAISED_IS_FAILURE', False):
         # the pipeline let an exception escape to the code that pushes items into it: no output-based judgement
         # is possible and none of the modelled behaviours does that
         return {'sig': 'raised-to-caller:%s' % obs['raised'],
                 'what': 'an exception escaped to the caller: %s: %s (%s)' % (
                     obs['raised'], obs.get('msg', ''), ' | '.join(obs.get('tb', [])[-2:])[:200])}
-    try:
+    def judge():
         f = mod.oracle(case, obs)
         if f is None and getattr(mod, 'RAISED_IS_FAILURE', False):
             from harness import muxprop
             f = muxprop.hostile_environment_failure(case, obs)
         return f
+    try:
+        return with_watchdog(judge)
+    except CaseTimeout:
+        return {'sig': 'does-not-terminate', 'what': 'a further run of the implementation on this case (re-subscription, '
+                're-application, composition or reference run of the oracle) did not finish within %d s' % CASE_LIMIT_S}
     except Exception as e:   # an oracle that cannot judge an observation must not pass silently
         return {'sig': 'oracle-crashed', 'what': 'the oracle could not evaluate this observation: %s: %s' % (
             type(e).__name__, str(e)[:200])}
